@@ -607,6 +607,11 @@ func c18Cases(c *Ctx, n int) []restCase {
 			}
 		case 8:
 			iss, acc := gen.URLString(rng, false), gen.URLString(rng, true)
+			if rng.Intn(4) == 0 {
+				// fields that are related to one another (the account repeating, containing or extending the issuer):
+				// independent draws never produce these
+				acc = gen.Related(rng, iss, strings.ToLower, strings.ToUpper)
+			}
 			if rng.Intn(6) == 0 {
 				// large fields: responses of several KiB to 100 KiB (buffer-size thresholds, pooled buffers under concurrency)
 				for n := gen.Pick(rng, []int{50, 300, 1500, 8000}); n > 0; n-- {
@@ -941,8 +946,12 @@ func c18Pipelined(c *Ctx, srv *server, cases []restCase) {
 		br := bufio.NewReader(conn)
 		answers := make([]*httpResult, len(part))
 		for i := range part {
-			resp, err := http.ReadResponse(br, nil)
+			resp, err := http.ReadResponse(br, &http.Request{Method: part[i].Method})
 			if err != nil {
+				if strings.Contains(err.Error(), "malformed HTTP") {
+					peek, _ := br.Peek(br.Buffered())
+					r.Violate(r.Prop+"|connection|bytes-that-are-no-response|", "on a connection carrying several well-formed requests the server sends bytes that are not an HTTP response", "rest", part[i], "an HTTP response, or a closed connection", err.Error()+" | next bytes: "+clipS(string(peek)))
+				}
 				break
 			}
 			b, rerr := io.ReadAll(resp.Body)
@@ -995,6 +1004,7 @@ func runC18On(c *Ctx, binEnv string, n int, conc []int) {
 	}
 	c18CrossEndpoint(c, srv, n/20)
 	c18Pipelined(c, srv, c18Cases(c, n/8+40))
+	c18DistinctSecrets(c, srv, n)
 	if !srv.alive() {
 		c.R.Violate("C18|server|died|", "the server process exited during the well-formed workload", "none", nil, "alive", "exited; see server log")
 	}
@@ -1003,9 +1013,12 @@ func runC18On(c *Ctx, binEnv string, n int, conc []int) {
 func init() {
 	register(&Prop{
 		ID: "C18",
-		Rule: "the real server binary (built from the working tree) runs on a loopback port; well-formed requests to all ten endpoints are generated over every field present/absent, digits/hash spellings incl. unknown ones, raw and structured suites, secrets with surrounding white space, counters/timestamps/periods/skews of the C01-C06 domains, from 1..32 client goroutines over reused and fresh connections; each response is compared with the in-process library result for exactly the request's parameters AND the independent reference model; generated codes are fed back to the matching validate endpoint; 2..16 different requests are pipelined on one TCP connection (bytes cut into segments at seeded places) and the i-th answer is judged as the answer to the i-th request; " +
+		Rule: "the real server binary (built from the working tree) runs on a loopback port; well-formed requests to all ten endpoints are generated over every field present/absent, digits/hash spellings incl. unknown ones, raw and structured suites, secrets with surrounding white space, counters/timestamps/periods/skews of the C01-C06 domains, from 1..32 client goroutines over reused and fresh connections; each response is compared with the in-process library result for exactly the request's parameters AND the independent reference model; generated codes are fed back to the matching validate endpoint; 2..16 different requests are pipelined on one TCP connection (bytes cut into segments at seeded places) and the i-th answer is judged as the answer to the i-th request; thousands of requests with secrets never seen before in one server process, with early secrets coming back after 10..50000 others in fresh spellings; identical requests without a timestamp repeated as the clock moves on (periods 1 and 2 s), each verdict bracketed by the instants of its exchange; " +
 			"distinct_nontrivial counts distinct (endpoint, body, query) requests judged",
 		Run: func(c *Ctx) {
+			nowDone := make(chan struct{})
+			go c18NowHistory(c, "VERIF_SERVER_BIN", nowDone)
+			defer func() { <-nowDone }()
 			runC18On(c, "VERIF_SERVER_BIN", c.N(6000, 100000), []int{1, 4, 32, 8})
 			if c.Thorough {
 				runC18On(c, "VERIF_SERVER_RACE_BIN", 20000, []int{16, 32})
